@@ -1,11 +1,17 @@
 package rules
 
 import (
+	"encoding/json"
 	"fmt"
 	"go/ast"
 	"go/constant"
 	"go/token"
 	"go/types"
+	"os"
+	"path/filepath"
+	"regexp"
+	"sort"
+	"strconv"
 	"strings"
 
 	"golang.org/x/tools/go/ssa"
@@ -15,7 +21,7 @@ import (
 
 func init() {
 	reg("R41", r41BitProvenance)
-	reg("R42", r42CornerOfOrigin)
+	reg("R42", func(c *core.Ctx) { r42CornerOfOrigin(c); r42AxisOrderFromTable(c) })
 }
 
 // ---- bit-provenance domain -------------------------------------------------
@@ -842,4 +848,265 @@ func r42CornerOfOrigin(c *core.Ctx) {
 		c.Check(R, "origin-through-toxypoint/"+name, f.Decl.Pos(), okXY, "the origin is obtained once through ToXYPoint(tms, *tm.PointOfOrigin)", "the point of origin is not normalised to x,y order through ToXYPoint")
 	}
 	c.Floor(R, 9)
+}
+
+
+// r42AxisOrderFromTable: for every built-in tile matrix set the axis order is answered by IsLatLon itself (the
+// OGC CRS84 special case or the EPSG table), never by the fallback on the informative orderedAxes member.  The CRS
+// reference of each embedded document is read from the source tree, split with the repository's own URI patterns,
+// and IsLatLon's branch structure is followed with its string comparisons, the ParseUint outcome and the table
+// lookup decided on those constants (partial evaluation of the decision, not an execution of texel).
+func r42AxisOrderFromTable(c *core.Ctx) {
+	const R = "R42"
+	f := c.Anchor(R, "tms20.IsLatLon")
+	txy := c.Anchor(R, "tms20.ToXYPoint")
+	if f == nil || f.SSA == nil || txy == nil {
+		return
+	}
+	pk := f.Pkg
+	info := pk.TypesInfo
+	// the table's keys and the two URI patterns, from the source
+	table := map[uint64]bool{}
+	var patterns []*regexp.Regexp
+	for _, file := range pk.Syntax {
+		for _, d := range file.Decls {
+			gd, ok := d.(*ast.GenDecl)
+			if !ok || gd.Tok != token.VAR {
+				continue
+			}
+			for _, sp := range gd.Specs {
+				vs := sp.(*ast.ValueSpec)
+				for i, nm := range vs.Names {
+					if i >= len(vs.Values) {
+						continue
+					}
+					switch {
+					case nm.Name == "epsgAxesAreLatLon":
+						if cl, ok := vs.Values[i].(*ast.CompositeLit); ok {
+							for _, el := range cl.Elts {
+								if kv, ok := el.(*ast.KeyValueExpr); ok {
+									if k, ok := core.ConstInt(info, kv.Key); ok {
+										table[uint64(k)] = true
+									}
+								}
+							}
+						}
+					case nm.Name == "crsURIRegexURL" || nm.Name == "crsURIRegexURN":
+						if call, ok := vs.Values[i].(*ast.CallExpr); ok && len(call.Args) == 1 {
+							if pat, ok := core.ConstString(info, call.Args[0]); ok {
+								if re, err := regexp.Compile(pat); err == nil {
+									patterns = append(patterns, re)
+								}
+							}
+						}
+					}
+				}
+			}
+		}
+	}
+	if len(table) < 100 || len(patterns) != 2 {
+		c.Bad(R, "axis-order-from-table/inputs", f.Decl.Pos(), fmt.Sprintf("EPSG axis table (%d keys) or the two CRS URI patterns (%d) not found in package tms20", len(table), len(patterns)))
+		return
+	}
+	// ToXYPoint asks IsLatLon first and falls back only on its error
+	okFallback := false
+	{
+		calls := findCallsByName(txy.SSA, "IsLatLon")
+		fb := findCallsByName(txy.SSA, "axisOrderIsLatLon")
+		if len(calls) == 1 && len(fb) <= 1 {
+			okFallback = true
+			if len(fb) == 1 {
+				errv := extractOf(calls[0], 1)
+				// the fallback is unreachable when IsLatLon's error is nil
+				reach, _ := core.Search{Fn: txy.SSA, From: calls[0], Target: instrIs(fb[0]), Edge: nilEdges(errv)}.Run()
+				okFallback = errv != nil && !reach
+			}
+		}
+	}
+	c.Check(R, "axis-order-fallback-only-on-error/"+txy.Name, txy.Decl.Pos(), okFallback, "ToXYPoint consults orderedAxes only when IsLatLon returned an error", "ToXYPoint does not ask IsLatLon first / uses the orderedAxes fallback although IsLatLon answered")
+	// the parts IsLatLon sees are capture groups 1, 2, 3 of those patterns
+	{
+		want := map[string]int64{"authority": 1, "version": 2, "code": 3}
+		seen := map[string]bool{}
+		okParts := true
+		for _, file := range pk.Syntax {
+			ast.Inspect(file, func(n ast.Node) bool {
+				as, ok := n.(*ast.AssignStmt)
+				if !ok || len(as.Lhs) != 1 || len(as.Rhs) != 1 {
+					return true
+				}
+				sel, ok := as.Lhs[0].(*ast.SelectorExpr)
+				if !ok {
+					return true
+				}
+				w, isPart := want[sel.Sel.Name]
+				if !isPart || core.TypeShort(info.TypeOf(sel.X)) != "tms20.URICRS" {
+					return true
+				}
+				ix, ok := ast.Unparen(as.Rhs[0]).(*ast.IndexExpr)
+				if !ok {
+					okParts = false
+					return true
+				}
+				if k, isK := core.ConstInt(info, ix.Index); !isK || k != w {
+					okParts = false
+				}
+				seen[sel.Sel.Name] = true
+				return true
+			})
+		}
+		c.Check(R, "crs-parts-are-the-capture-groups/tms20.URICRS", f.Decl.Pos(), okParts && len(seen) == 3, "authority, version, code = capture groups 1, 2, 3 of the URI patterns", "URICRS no longer takes authority/version/code from capture groups 1/2/3 of the URI patterns: the rule cannot tell what IsLatLon sees")
+	}
+	dir := filepath.Join(c.P.RepoDir, "tms20", "tilematrixsets")
+	files, _ := filepath.Glob(filepath.Join(dir, "*.json"))
+	sort.Strings(files)
+	n := 0
+	for _, path := range files {
+		raw, err := os.ReadFile(path)
+		if err != nil {
+			continue
+		}
+		var doc struct {
+			CRS interface{} `json:"crs"`
+		}
+		if json.Unmarshal(raw, &doc) != nil {
+			continue
+		}
+		uri, _ := doc.CRS.(string)
+		if m, ok := doc.CRS.(map[string]interface{}); ok {
+			uri, _ = m["uri"].(string)
+		}
+		name := strings.TrimSuffix(filepath.Base(path), ".json")
+		construct := "axis-order-from-table/" + name
+		n++
+		if uri == "" {
+			c.Unknown(R, construct, f.Decl.Pos(), "the built-in set does not reference its CRS by URI; the rule cannot tell how its axis order is resolved")
+			continue
+		}
+		var parts []string
+		for _, re := range patterns {
+			if parts = re.FindStringSubmatch(uri); parts != nil {
+				break
+			}
+		}
+		if len(parts) != 4 {
+			c.Bad(R, construct, f.Decl.Pos(), "the CRS URI "+uri+" matches neither URI pattern of tms20")
+			continue
+		}
+		vals := map[string]string{"Authority": parts[1], "Version": parts[2], "Code": parts[3]}
+		out, why := evalIsLatLon(f.SSA, vals, table)
+		c.Check(R, construct, f.Decl.Pos(), out == "table" || out == "const", fmt.Sprintf("%s (%s:%s:%s): answered by IsLatLon (%s)", uri, parts[1], parts[2], parts[3], out),
+			fmt.Sprintf("for the built-in set %s (crs %s) IsLatLon %s: the axis order then comes from the informative orderedAxes fallback instead of the EPSG table", name, uri, why))
+	}
+	c.Check(R, "axis-order-from-table/sets-found", f.Decl.Pos(), n >= 10, fmt.Sprintf("%d embedded tile matrix sets", n), fmt.Sprintf("only %d embedded tile matrix set documents found under tms20/tilematrixsets", n))
+}
+
+// evalIsLatLon follows IsLatLon for one (authority, version, code).  Returns "table" / "const" when it returns a nil
+// error (value from the table lookup / a constant), else "" with the reason.
+func evalIsLatLon(fn *ssa.Function, vals map[string]string, table map[uint64]bool) (string, string) {
+	if len(fn.Params) != 1 {
+		return "", "has an unexpected signature"
+	}
+	crs := fn.Params[0]
+	var strOf func(v ssa.Value) (string, bool)
+	strOf = func(v ssa.Value) (string, bool) {
+		switch x := v.(type) {
+		case *ssa.Const:
+			if x.Value != nil && x.Value.Kind() == constant.String {
+				return constant.StringVal(x.Value), true
+			}
+		case *ssa.Call:
+			if x.Call.IsInvoke() && x.Call.Value == ssa.Value(crs) {
+				s, ok := vals[x.Call.Method.Name()]
+				return s, ok
+			}
+			switch core.StaticCalleeID(x) {
+			case "strings.ToLower":
+				s, ok := strOf(x.Call.Args[0])
+				return strings.ToLower(s), ok
+			case "strings.ToUpper":
+				s, ok := strOf(x.Call.Args[0])
+				return strings.ToUpper(s), ok
+			}
+		}
+		return "", false
+	}
+	code, _ := vals["Code"]
+	num, perr := strconv.ParseUint(code, 10, 64)
+	atom := func(fr *boolFrame, v ssa.Value) (string, bool, bool) {
+		switch x := v.(type) {
+		case *ssa.BinOp:
+			if x.Op == token.EQL || x.Op == token.NEQ {
+				l, lok := strOf(x.X)
+				r, rok := strOf(x.Y)
+				if lok && rok {
+					if (l == r) == (x.Op == token.EQL) {
+						return "TRUE", false, true
+					}
+					return "TRUE", true, true
+				}
+				// err != nil after ParseUint(code)
+				if ex, ok := x.X.(*ssa.Extract); ok && ex.Index == 1 {
+					if call, ok := ex.Tuple.(*ssa.Call); ok && core.StaticCalleeID(call) == "strconv.ParseUint" {
+						if k, isK := x.Y.(*ssa.Const); isK && k.IsNil() {
+							if s, ok := strOf(call.Call.Args[0]); ok && s == code {
+								isNil := perr == nil
+								return "TRUE", isNil == (x.Op == token.NEQ), true
+							}
+						}
+					}
+				}
+			}
+		case *ssa.Extract:
+			// known := table[uint(code)]
+			if lk, ok := x.Tuple.(*ssa.Lookup); ok && lk.CommaOk && x.Index == 1 {
+				if g, ok := lk.X.(*ssa.UnOp); ok {
+					if gl, ok := g.X.(*ssa.Global); ok && gl.Name() == "epsgAxesAreLatLon" && perr == nil {
+						return "TRUE", !table[num], true
+					}
+				}
+			}
+		}
+		return "", false, false
+	}
+	bi := &boolInterp{roleOf: func(*boolFrame, ssa.Value) string { return "" }, atom: atom, assign: map[string]bool{"TRUE": true}, used: map[string]bool{}}
+	fr := &boolFrame{fn: fn, roles: map[ssa.Value]string{}, env: map[ssa.Value]bool{}}
+	out, err := bi.run(fr, fn.Blocks[0], nil, 0)
+	if err != nil {
+		return "", "cannot be followed: " + err.Error()
+	}
+	if out.kind != "return" || out.ret == nil || len(out.ret.Results) != 2 {
+		return "", "does not return"
+	}
+	if k, ok := out.ret.Results[1].(*ssa.Const); !ok || !k.IsNil() {
+		return "", "returns an error (" + out.ret.Results[1].String() + ")"
+	}
+	if _, isK := out.ret.Results[0].(*ssa.Const); isK {
+		return "const", ""
+	}
+	return "table", ""
+}
+
+// nilEdges: follow only the edges on which errVal == nil.
+func nilEdges(errVal ssa.Value) func(b *ssa.BasicBlock, k int) bool {
+	return func(b *ssa.BasicBlock, k int) bool {
+		i := core.BlockIf(b)
+		if i == nil || errVal == nil {
+			return true
+		}
+		cmp, ok := i.Cond.(*ssa.BinOp)
+		if !ok || cmp.X != errVal {
+			return true
+		}
+		if kk, isK := cmp.Y.(*ssa.Const); !isK || !kk.IsNil() {
+			return true
+		}
+		switch cmp.Op {
+		case token.NEQ:
+			return k == 1
+		case token.EQL:
+			return k == 0
+		}
+		return true
+	}
 }
